@@ -569,6 +569,28 @@ func sharedSetAliasedImport(name string, async bool) *spec.Spec {
 	return b.s
 }
 
+// localNameEqualsForeignPackage: the wire package declares an identifier
+// (type config) that equals the NAME of a sibling package, which is therefore
+// imported under an alias (cfgpkg). The injector's result type comes from that
+// package and the providers sit in a set of the second wire file: the alias
+// must be used everywhere, or the output collides with the local identifier.
+func localNameEqualsForeignPackage(name string) *spec.Spec {
+	b := newBuilder(name)
+	cfg := b.ext("config", "config", "cfgpkg")
+	b.s.ExtraDecl = "type config struct{ local bool }\n\nvar _ = config{}\n"
+	opts := b.ptr(b.strct("Options", cfg))
+	lim := b.nint("Limit", "")
+	p1 := b.fn("DefaultLimit", "", nil, []int{lim}, false, false)
+	p2 := b.fn("NewOptions", cfg, nil, []int{opts}, false, true)
+	app := b.ptr(b.strct("App", ""))
+	p3 := b.fn("NewApp", "", []int{opts, lim}, []int{app}, false, false)
+	b.inject("InitializeOptions", opts, p2)
+	b.inject("InitializeApp", app, p1, p2, p3)
+	b.s.WireAllInSets = true
+	b.s.Features = append(b.s.Features, "local-identifier-named-like-an-aliased-sibling-package")
+	return b.s
+}
+
 // injectorNameForms: declarations whose injector name cannot become a
 // package-level function: used twice in one file (0) or in two files of one
 // package (4), equal to a function the user wrote (1), a keyword (2), not an
@@ -642,7 +664,7 @@ func corpusSpecs(prop string) []*spec.Spec {
 		h.Injectors[0].Items = append(h.Injectors[0].Items, spec.Item{Prov: pl})
 		h.WireLocalHelper = true
 		h.Features = append(h.Features, "provider-declared-in-the-wire-file")
-		return []*spec.Spec{twinConfigs("k14a", false), twinConfigs("k14b", true), sameNamedPackages("k14c"), h, sameLocalNameInTwoWireFiles("k14v")}
+		return []*spec.Spec{twinConfigs("k14a", false), twinConfigs("k14b", true), sameNamedPackages("k14c"), h, sameLocalNameInTwoWireFiles("k14v"), localNameEqualsForeignPackage("k14n")}
 	case "C04", "C12":
 		var fs []*spec.Spec
 		for k := 0; k < 4; k++ {
